@@ -59,7 +59,7 @@ THEOREMS = [
 ]
 
 RULE = ("rvb-updates: Ising samplers (frustrated triangle, triangle with unequal dyadic |J|, ring with one flipped bond, multi-edges, bow-tie with h != 0, random graphs, "
-        "underflow-prone low-temperature triangle, weak transverse field, diluted triangle / ring / weak-field graphs with some J = 0), thermalised, one proposed RVB update per case with the recorded draws and the traced region; "
+        "underflow-prone low-temperature triangle, weak transverse field, diluted triangle / ring / weak-field graphs with some J = 0, pairs / triangles with duplicate edges of opposite sign in the same and the opposite orientation), thermalised, one proposed RVB update per case with the recorded draws and the traced region; "
         "non-trivial = accepted and configuration changed, or rejected with p > 0; every proposal with p < EPSILON is re-run with the accept word forced to 0, every proposal with 0 < p < 1 with accept words just below / above p*2^64; "
         "every 5th step k = 2..4 updates per sweep are compared with k single updates. region: one case per proposed update of the same run (edges, operator string, full draw log) + 2 scripted J = 0 regressions; "
         "non-trivial = the proposed region has >= 2 cells. timestep-embedded-rvb: per model two samplers with identical RNG streams, 24 (quick) / 40 (thorough) steps of timestep vs diagonal; rvb sweep; cluster (kind pipe, non-trivial = an RVB proposal was accepted inside timestep) "
